@@ -49,24 +49,45 @@ def lookups(n, tid=1):
     return out
 
 
-def render(name, s, e, nlook):
+OTHER = (0x9a9a, 0x9b9b, 0x9c9c, 0x9d9d)   # words of "another event": never equal to an enumerated START word
+
+
+def prefix_events(name, s, kind):
+    """events that precede the judged START/END pair: an earlier START of the same call on the same thread whose END was lost,
+    a stray END, the same call on another thread still open, an unrelated open call on the same thread."""
+    o, _ = D.in_domain(name, 'se', OTHER, (0, 0, 0, 0), 1)
+    if name in ('BSC_getsockopt', 'BSC_setsockopt'):
+        o = (o[0], 6, o[2], o[3])
+    if kind == 'stale-start':
+        return [E.ev(name, 1, o)]
+    if kind == 'stray-end':
+        return [E.ev(name, 2, o)]
+    if kind == 'other-thread-open':
+        return [E.ev(name, 1, o, tid=2)]
+    if kind == 'other-call-open':
+        return [E.ev('BSC_getpid', 1, o)]
+    return []
+
+
+def render(name, s, e, nlook, prefix=None):
     p = TracesParser(E.codes(), {}, {})
     _, e2 = D.in_domain(name, 'se', s, e, 1)
     # keep the START words exactly as enumerated; only END enum positions are forced in-domain
-    evs = [E.ev(name, 1, s)] + lookups(nlook) + [E.ev(name, 2, e2)]
+    pre = prefix_events(name, s, prefix)
+    evs = pre + [E.ev(name, 1, s)] + lookups(nlook) + [E.ev(name, 2, e2)]
     out = [t for t in p.feed_generator(E.restamp(evs))]
-    mine = [t for t in out if t.ktraces[0].eventid == evs[0].eventid]
+    mine = [t for t in out if t.ktraces[0].eventid == evs[len(pre)].eventid and t.ktraces[-1].timestamp == len(evs) - 1]
     if len(mine) != 1:
         return None, f'{len(mine)} traces for one START/END pair'
     return str(mine[0]), None
 
 
-def judge(name, s, nlook):
+def judge(name, s, nlook, prefix=None):
     """returns (bad or None, call text or None)"""
     calls = []
-    for e in ENDS:
+    for e in (ENDS if prefix is None else ENDS[:1]):
         try:
-            txt, err = render(name, s, e, nlook)
+            txt, err = render(name, s, e, nlook, prefix)
         except Exception as ex:
             return ('render-raised:' + type(ex).__name__, {'error': repr(ex)[:200]}), None
         if err:
@@ -96,7 +117,10 @@ class C09(Check):
     rule = ('for each BSD syscall / Mach trap decoder rendered as name(p0,...): complete product of START word domains - numeric '
             'positions over 5 (quick) / 8 (thorough) corner values {0x1111(k+1), 0, 1, 0x7f, 2^31, 2^32-1, 2^63, 2^64-1}, '
             'enum-valued positions (frozen table) over every member, ioctl request over Darwin _IOC words - x 3 END tuples '
-            '(success, failure, other values) with 0 lookups, and every point with <=2 non-default words with 2 nested lookups. '
+            '(success, failure, other values) with 0 lookups, every point with <=2 non-default words with 2 nested lookups, and every '
+            'point with <=1 non-default word preceded by {an earlier START of the same call whose END was lost, a stray END, the same '
+            'call still open on another thread, another call still open on the same thread} carrying words that never equal an '
+            'enumerated one. '
             'Oracle: every integer-literal token at position k is one of the renderings {u64, i64, u32, i32 decimal; u64, u32 hex} of '
             'START word k in every run; no numeric token beyond position 3; call part identical across END tuples. Distinct by '
             'construction; non-trivial = the rendering is call-style and shows at least one numeric token.')
@@ -129,21 +153,29 @@ class C09(Check):
                     continue
                 bad, call = judge(name, s, 2)
                 self._acc(acc, name, s, 2, bad, call)
+            # histories: something precedes the judged pair (words of the preceding events never equal an enumerated word)
+            for s in deviation_bounded(doms, 1):
+                if name in ('BSC_getsockopt', 'BSC_setsockopt') and s[1] in (1, 0xffff):
+                    continue
+                for prefix in ('stale-start', 'stray-end', 'other-thread-open', 'other-call-open'):
+                    bad, call = judge(name, s, 0, prefix)
+                    self._acc(acc, name, s, 0, (bad[0] + ':after-' + prefix, bad[1]) if bad else None, call, prefix)
 
-    def _acc(self, acc, name, s, nlook, bad, call):
+    def _acc(self, acc, name, s, nlook, bad, call, prefix=None):
         nontrivial = call is not None and any(numeric_token(t) for t in call[1])
         acc.case(nontrivial=nontrivial, transitions=3 * (2 + 2 * nlook), outcome=h64((name, call)) if call else h64(name))
         if call is None and bad is None:
             acc.count('not_call_style_runs')
         if bad:
-            acc.violation(f'{bad[0]}@{name}', {'decoder': name, 'start': [hex(x) for x in s], 'lookups': nlook}, bad[1])
+            acc.violation(f'{bad[0]}@{name}', {'decoder': name, 'start': [hex(x) for x in s], 'lookups': nlook, 'prefix': prefix}, bad[1])
         elif nontrivial and acc.want_sample():
             acc.sample({'decoder': name, 'start': [hex(x) for x in s], 'call': f"{call[0]}({', '.join(call[1])})"})
 
     def replay(self, case):
         s = tuple(int(x, 16) for x in case['start'])
-        bad, _ = judge(case['decoder'], s, case['lookups'])
-        return [(f"{bad[0]}@{case['decoder']}", bad[1])] if bad else []
+        pre = case.get('prefix')
+        bad, _ = judge(case['decoder'], s, case['lookups'], pre)
+        return [(f"{bad[0]}{':after-' + pre if pre else ''}@{case['decoder']}", bad[1])] if bad else []
 
 
 if __name__ == '__main__':
